@@ -23,12 +23,16 @@ type verifPage struct {
 
 func (p *verifPage) FilePath() string { return p.path }
 func (p *verifPage) WriteBytes(data []byte, offset int) {
-	p.fs.ops++
+	if p.fs.dead() {
+		return
+	}
 	copy(p.data[offset:], data)
 }
 func (p *verifPage) ReadBytes(offset, length int) []byte { return p.data[offset : offset+length] }
 func (p *verifPage) PutUint64(v uint64, offset int) {
-	p.fs.ops++
+	if p.fs.dead() {
+		return
+	}
 	for i := 0; i < 8; i++ {
 		p.data[offset+i] = byte(v >> (8 * uint(i)))
 	}
@@ -41,7 +45,9 @@ func (p *verifPage) ReadUint64(offset int) uint64 {
 	return v
 }
 func (p *verifPage) PutUint32(v uint32, offset int) {
-	p.fs.ops++
+	if p.fs.dead() {
+		return
+	}
 	for i := 0; i < 4; i++ {
 		p.data[offset+i] = byte(v >> (8 * uint(i)))
 	}
@@ -53,7 +59,12 @@ func (p *verifPage) ReadUint32(offset int) uint32 {
 	}
 	return v
 }
-func (p *verifPage) PutUint8(v uint8, offset int) { p.fs.ops++; p.data[offset] = v }
+func (p *verifPage) PutUint8(v uint8, offset int) {
+	if p.fs.dead() {
+		return
+	}
+	p.data[offset] = v
+}
 func (p *verifPage) ReadUint8(offset int) uint8   { return p.data[offset] }
 func (p *verifPage) Sync() error                  { return nil }
 func (p *verifPage) Close() error                 { p.closed = true; return nil }
@@ -129,8 +140,19 @@ type verifFS struct {
 	files     map[string][]byte
 	ops       int
 	truncated []verifTruncate
+	// crashAt >= 0: the process dies right before store number crashAt (stores after it are lost)
+	crashAt int
 	// newFile allocates the content of a file that does not exist yet
 	newFile func(name string, size int) []byte
+}
+
+// dead counts one store to a mapped page and reports whether the process was already killed.
+func (fs *verifFS) dead() bool {
+	if fs.crashAt >= 0 && fs.ops >= fs.crashAt {
+		return true
+	}
+	fs.ops++
+	return false
 }
 
 func (fs *verifFS) pageName(dir string, index int64) string {
@@ -212,7 +234,7 @@ func verifStubExist(name string) bool { return verifCurrentFS.exist(name) }
 
 // verifInstallFS installs the model behind the package seams (engine only).
 func verifInstallFS() *verifFS {
-	fs := &verifFS{files: map[string][]byte{}}
+	fs := &verifFS{files: map[string][]byte{}, crashAt: -1}
 	fs.newFile = func(name string, size int) []byte {
 		if size > 1<<16 {
 			// large pages (data: 128 MiB, index: 4 MiB) are one symbolic array each
